@@ -25,7 +25,7 @@ extern std::atomic<long> g_time_value;
 
 std::string Action::str() const {
     static const char* n[] = {"run", "publish", "subscribe", "unsubscribe", "cancel", "disconnect", "destroy", "signal",
-                              "broker_publish", "net_kill", "spurious_ack", "hostile_bytes", "set_silent", "custom", "reauth", "replace", "broker_disconnect", "reconfigure",
+                              "broker_publish", "net_kill", "spurious_ack", "hostile_bytes", "set_silent", "custom", "reauth", "replace", "broker_disconnect", "reconfigure", "receive",
                               "s_open", "s_read", "s_write", "s_shutdown", "s_cancel", "s_close", "s_trigger"};
     std::ostringstream o;
     if (chained) o << "+chained ";
@@ -316,6 +316,10 @@ struct App : AppSink {
                 if (!cl->alive() || !sc.has_ccfg2 || running) break;
                 w.log(Ev::note, -1, -1, 0, "script: reconfigure");
                 cl->configure(sc.ccfg2);
+                break;
+            case Action::receive:      // an async_receive armed by the script (on a client that is not running, for instance)
+                if (!cl->alive()) break;
+                arm_receive();
                 break;
             case Action::reauth:
                 if (!cl->alive()) break;
